@@ -179,6 +179,9 @@ func c01Harness(cfg *Cfg) func(x *mc.Exec) {
 				return
 			}
 			fam := x.Choose(8, "shape")
+			if !cfg.Thorough && fam >= 3 && (k.Level == -1 || k.Kind == "flate4k" && k.Level > 2) {
+				return // quick tier: the sweeps run on one setting per distinct compressor (default = level 2; 4 KiB levels 3..9 = level 2)
+			}
 			var d []byte
 			var nm string
 			switch fam {
